@@ -79,7 +79,9 @@ def check (inTx : Bool) (op : Op) (now : Int) (pre post : DB) (res : Out) : Opti
   let r := step op now s
   let r : SRes := { r with st := purge now r.st }
   match op with
-  | .keyKeys _ =>
+  | .keyKeys p =>
+    -- C18 fixes no meaning for unterminated or reversed classes, nor for non-ASCII bytes
+    if !(wellFormed p && decide (Ascii p) && s.all (fun e => decide (Ascii e.1))) then none else
     (match res, r.out with
      | .ok v, .ok w => some (sortKeyVals (projVal v) == w && decide (s' = s))
      | _, _ => some false)
@@ -186,7 +188,7 @@ def known (inTx : Bool) (op : Op) (now : Int) (pre : DB) : List String :=
          | none => [])
        | none => [])
     | .keyRename k _ | .keyRenameNX k _ => if k.isEmpty && (pre.liveKey k now).isSome then ["D18"] else []
-    | .keyKeys p => if (p.zip (p.drop 1)).any (fun q => q.1 == 91 && q.2 == 33) then ["D16"] else []
+    | .keyKeys p => if !noBangClass p then ["D16"] else []
     | _ => []
   d05 ++ rest
 
